@@ -37,7 +37,10 @@
 (*     (op = 0: continuation row), rs rowspan of the html comment cell,     *)
 (*     warn = 1: skool2asm printed a warning quoting this line / table,     *)
 (*     tab = 1: the line stands for a whole rendered table (cols = words of *)
-(*     each column top to bottom; w = the table placeholder code); in an    *)
+(*     its cells: one sequence per horizontal extent (first column,         *)
+(*     colspan) that occurs, ordered by that pair, the cells of one extent  *)
+(*     top to bottom - without spanning cells: each column top to bottom;   *)
+(*     w = the table placeholder code); in an                               *)
 (*     instruction group every row of a rendered table stays a row:         *)
 (*     tab = 1 the first (placeholder + cells), tab = 2 the others (w = <<>>)*)
 (*     lf = 1: the line ended in a bare LF although CRLF is configured      *)
